@@ -22,7 +22,7 @@ UNITS = [
          extra_flags=["--nondet-static", "--unwind", "5"], covers=2, min_obligations=4, timeout=300,
          note="closes the assumed lookup contracts of the setter / command units: the element returned is the one the key designates")
     for n, d, fns, pr in [
-        ("by_nodeaddr", "VP_H_BY_NODEADDR", ["bidib_state_get_board_ref_by_nodeaddr"], ["C15", "C07"]),
+        ("by_nodeaddr", "VP_H_BY_NODEADDR", ["bidib_state_get_board_ref_by_nodeaddr"], ["C15", "C07", "C19"]),
         ("by_uniqueid", "VP_H_BY_UID", ["bidib_state_get_board_ref_by_uniqueid"], ["C15"]),
         ("by_id", "VP_H_BY_ID", ["bidib_state_get_board_ref"], ["C15", "C09"]),
         ("accessory_by_number", "VP_H_ACC_BY_NUMBER", ["bidib_state_get_board_accessory_mapping_ref_by_number", "bidib_state_get_board_ref_by_nodeaddr"], ["C07"]),
